@@ -32,6 +32,7 @@ class Origins:
         self.scope = Scope(project, fi)
         self.RD = reaching_defs(self.cfg, fi.params())
         self._memo: Dict[tuple, object] = {}
+        self.fstrings: Dict[int, tuple] = {}
         self.node_of_ast: Dict[int, Node] = {}
         from .cfg import node_exprs
         for n in self.cfg.nodes:
@@ -74,6 +75,17 @@ class Origins:
             res = next(iter(outs)) if len(outs) == 1 else ("phi", frozenset(outs))
             self._memo[key] = res
             return res
+        if isinstance(e, ast.JoinedStr):
+            key = ("fstr", id(e))
+            self.fstrings[id(e)] = (e, nid)
+            return key
+        if isinstance(e, ast.Dict):
+            items = []
+            for k, v in zip(e.keys, e.values):
+                if k is None:
+                    return ("expr", norm_text(e))
+                items.append((self.of(nid, k, depth + 1), self.of(nid, v, depth + 1)))
+            return ("dict", tuple(items))
         if isinstance(e, ast.Tuple) or isinstance(e, ast.List):
             return ("tuple", tuple(self.of(nid, x, depth + 1) for x in e.elts))
         if isinstance(e, ast.Attribute):
@@ -189,4 +201,8 @@ def show(o, depth=0) -> str:
         return f"({show(o[2])} {o[1]} {show(o[3])})"
     if k == "expr":
         return str(o[1])
+    if k == "fstr":
+        return "<f-string>"
+    if k == "dict":
+        return "{" + ", ".join(f"{show(a)}: {show(b)}" for a, b in o[1]) + "}"
     return "(" + " ".join(show(x) if isinstance(x, tuple) else str(x) for x in o) + ")"
